@@ -10,6 +10,14 @@ pub mod mirror {
     pub struct N<'a, T> {
         pub v: &'a T,
         pub path: String,
+        /// the path text the implementation is KNOWN to produce for this node where it differs from `path` (open findings on name
+        /// escaping / quoting in paths: Pointer::key copies the name or the selector text unescaped); used only to tell those
+        /// findings from any other wrong path
+        pub kpath: String,
+    }
+    /// Pointer::key as recorded in the known findings: the key text is copied verbatim; it is wrapped in quotes unless it already looks single-quoted
+    pub fn known_key_path(parent: &str, key: &str) -> String {
+        if key.starts_with('\'') && key.ends_with('\'') { format!("{}[{}]", parent, key) } else { format!("{}['{}']", parent, key) }
     }
 
     // ---- RFC 9535 2.3.3 / 2.3.4.2.2 arithmetic (mirrors contracts/spec_arith.rs) ----
@@ -112,9 +120,9 @@ pub mod mirror {
     // ---- children / descendants ----
     pub fn children<'a, T: Queryable>(n: &N<'a, T>) -> Vec<N<'a, T>> {
         if let Some(a) = n.v.as_array() {
-            a.iter().enumerate().map(|(k, e)| N { v: e, path: idx_path(&n.path, k) }).collect()
+            a.iter().enumerate().map(|(k, e)| N { v: e, path: idx_path(&n.path, k), kpath: idx_path(&n.kpath, k) }).collect()
         } else if let Some(o) = n.v.as_object() {
-            o.into_iter().map(|(k, e)| N { v: e, path: key_path(&n.path, k) }).collect()
+            o.into_iter().map(|(k, e)| N { v: e, path: key_path(&n.path, k), kpath: known_key_path(&n.kpath, k) }).collect()
         } else { vec![] }
     }
     pub fn descendants<'a, T: Queryable>(n: &N<'a, T>, out: &mut Vec<N<'a, T>>) {
@@ -201,20 +209,20 @@ pub mod mirror {
                 Selector::Name(text) => {
                     let name = match name_of(text) { Some(x) => x, None => return vec![] };
                     match n.v.as_object() {
-                        Some(o) => o.into_iter().filter(|(k, _)| **k == name).map(|(k, e)| N { v: e, path: key_path(&n.path, k) }).collect(),
+                        Some(o) => o.into_iter().filter(|(k, _)| **k == name).map(|(k, e)| N { v: e, path: key_path(&n.path, k), kpath: known_key_path(&n.kpath, text) }).collect(),
                         None => vec![],
                     }
                 }
                 Selector::Wildcard => children(n),
                 Selector::Index(i) => match n.v.as_array() {
                     Some(a) => match rfc_index(a.len() as i128, *i as i128) {
-                        Some(k) => vec![N { v: &a[k as usize], path: idx_path(&n.path, k as usize) }],
+                        Some(k) => vec![N { v: &a[k as usize], path: idx_path(&n.path, k as usize), kpath: idx_path(&n.kpath, k as usize) }],
                         None => vec![] },
                     None => vec![],
                 },
                 Selector::Slice(s, e, st) => match n.v.as_array() {
                     Some(a) => rfc_slice(a.len() as i128, *s, *e, *st).into_iter()
-                        .map(|k| N { v: &a[k as usize], path: idx_path(&n.path, k as usize) }).collect(),
+                        .map(|k| N { v: &a[k as usize], path: idx_path(&n.path, k as usize), kpath: idx_path(&n.kpath, k as usize) }).collect(),
                     None => vec![],
                 },
                 Selector::Filter(f) => children(n).into_iter().filter(|c| self.filter(f, c.v)).collect(),
@@ -239,7 +247,7 @@ pub mod mirror {
             cur
         }
         pub fn query(&self, q: &JpQuery) -> Vec<N<'a, T>> {
-            self.segments(&q.segments, vec![N { v: self.root, path: "$".to_string() }])
+            self.segments(&q.segments, vec![N { v: self.root, path: "$".to_string(), kpath: "$".to_string() }])
         }
 
         // ---- filters (RFC 9535 2.3.5) ----
@@ -259,7 +267,7 @@ pub mod mirror {
         }
         pub fn test_nodes(&self, t: &Test, cur: &'a T) -> Vec<N<'a, T>> {
             match t {
-                Test::RelQuery(segs) => self.segments(segs, vec![N { v: cur, path: String::new() }]),
+                Test::RelQuery(segs) => self.segments(segs, vec![N { v: cur, path: String::new(), kpath: String::new() }]),
                 Test::AbsQuery(q) => self.query(q),
                 Test::Function(_) => vec![],
             }
@@ -297,8 +305,8 @@ pub mod mirror {
                 Comparable::Literal(l) => Some(V::Own(self.literal(l))),
                 Comparable::SingularQuery(q) => {
                     let (segs, start) = match q {
-                        SingularQuery::Current(s) => (s, N { v: cur, path: String::new() }),
-                        SingularQuery::Root(s) => (s, N { v: self.root, path: "$".to_string() }),
+                        SingularQuery::Current(s) => (s, N { v: cur, path: String::new(), kpath: String::new() }),
+                        SingularQuery::Root(s) => (s, N { v: self.root, path: "$".to_string(), kpath: "$".to_string() }),
                     };
                     let mut ns = vec![start];
                     for s in segs {
